@@ -742,6 +742,7 @@ func init() {
 			complete := true
 			eval := func(c c01Case, size int) {
 				r.Evals.Add(1)
+				r.Journal(c)
 				r.Transitions.Add(3)
 				r.Traces.Add(1)
 				ok, sig, detail := c01Eval(c)
